@@ -828,7 +828,7 @@ Module CombinedExamples.
     (0 <=? x0) && (x1 <=? 1000) && (0 <=? y0) && (y1 <=? 1000) &&
     ((x1 <=? 300) || (700 <=? x0) || (y1 <=? 300) || (700 <=? y0)).
   Definition pa : wms_source := mkWms [s3857] [] [png] None (Some ((0, 0, 1000, 1000), s3857)) (Some 1) None [20].
-  Definition pb : wms_source := mkWms [s900913] [] [png] None (Some ((0, 0, 1000, 1000), s900913)) (Some 1)
+  Definition pb : wms_source := mkWms [s3857] [] [png] None (Some ((0, 0, 1000, 1000), s900913)) (Some 1)
                                       (Some (mkRR (Some (100, 1)) None)) [20; 21].
   Definition qh (b : bbox) := mkQuery b 100 100 s3857 png_typed [(30, 20, 40)].
   Example ex_compatible : compatible 1 1 true pa pb (qh (900, 900, 1100, 1100)) = true.
@@ -847,6 +847,13 @@ Module CombinedExamples.
     render_pair Tid 1 1 GIh GCh true pa pb (mkQuery (0, 0, 20000, 20000) 100 100 s3857 png_typed []) =
     [Request (mkReq (0, 0, 1000, 1000) 5 5 s3857 png_typed []); Blank].
   Proof. vm_compute. reflexivity. Qed.
+  (* the same SRS spelled with another code: not combined, each source is asked with its own code *)
+  Definition pb_alias : wms_source := mkWms [s900913] [] [png] None (Some ((0, 0, 1000, 1000), s900913)) (Some 1) None [20].
+  Example ex_pair_alias :
+    render_pair Tid 1 1 GIh GCh true pa pb_alias (qh (100, 100, 200, 200)) =
+    [Request (mkReq (100, 100, 200, 200) 100 100 s3857 png_typed [(30, 20, 40)]);
+     Request (mkReq (100, 100, 200, 200) 100 100 s900913 png_typed [(30, 20, 40)])].
+  Proof. vm_compute. reflexivity. Qed.
   Example ex_geom_sound : geom_contains_sound GCh pa.
   Proof.
     unfold geom_contains_sound, pa. cbn [w_geom w_cov]. intros g cb cs b Hg Hc. inversion Hc; subst.
@@ -864,7 +871,7 @@ Section CombineList.
   Definition agrees (e m : wms_source) (q : query) : Prop :=
     cov_eqb e m = true /\
     dims_for_params (w_fwd e) (q_dims q) = dims_for_params (w_fwd m) (q_dims q) /\
-    list_eqb srs_eq (w_srs e) (w_srs m) = true /\
+    list_eqb code_eq (w_srs e) (w_srs m) = true /\
     list_eqb (fun x y => f_id x =? f_id y) (w_fmts e) (w_fmts m) = true.
 
   Definition group_ok (e : wms_source) (ms : list wms_source) (q : query) : Prop :=
@@ -879,7 +886,7 @@ Section CombineList.
     unfold agrees. repeat split.
     - unfold cov_eqb. destruct (w_cov e) as [[cb cs]|]; [|reflexivity].
       unfold srs_eq. rewrite Z.eqb_refl, bbox_eqb_refl. cbn. destruct (w_geom e); [apply Z.eqb_refl|reflexivity].
-    - apply list_eqb_refl. intros x. unfold srs_eq. apply Z.eqb_refl.
+    - apply list_eqb_refl. intros x. unfold code_eq. apply Z.eqb_refl.
     - apply list_eqb_refl. intros x. apply Z.eqb_refl.
   Qed.
 
@@ -933,6 +940,24 @@ Section CombineList.
     destruct (compatible kn kd ok a b q); reflexivity.
   Qed.
 End CombineList.
+
+(* equal code lists: a code of one list is a code of the other *)
+Lemma list_eqb_code_eq_map l l' : list_eqb code_eq l l' = true -> map s_code l = map s_code l'.
+Proof.
+  revert l'. induction l as [|x l IH]; intros [|y l'] H; try discriminate; [reflexivity|].
+  cbn in H. apply andb_prop in H. destruct H as [Hxy H]. cbn. f_equal; [unfold code_eq in Hxy; lia|apply IH; exact H].
+Qed.
+
+(* the request of a layer that stands for several sources uses an srs_code that every one of them lists *)
+Lemma combined_request_code_of_members T kn kd GI GC first rest q e ms r m :
+  In (e, ms) (combine_layers kn kd first rest q) ->
+  wms_get_map T kn kd GI GC e q = Request r -> w_srs e <> [] -> In m ms ->
+  In (s_code (r_srs r)) (map s_code (w_srs m)).
+Proof.
+  intros Hin H Hne Hm. apply combine_layers_group_ok in Hin. destruct Hin as [Ha _].
+  destruct (Ha m Hm) as (_ & _ & Hs & _). apply list_eqb_code_eq_map in Hs. rewrite <- Hs.
+  eapply request_srs_code_supported; eassumption.
+Qed.
 
 (* a layer that agrees with a source has the same coverage extent and geometry *)
 Lemma agrees_coverage e m q cb cs :
